@@ -15,6 +15,8 @@ Sites (anchors in /repo/src/lian):
   `requireValues0` pinned commit: a set of value strings (frozen)
 * `arrayTypes`     lang/typescript_parser.py  Parser.array            (live: `list(dict.fromkeys(...))`)
   `arrayTypes0`    pinned commit: `list(set_of_node_type_strings)` (frozen)
+* `mockUnit`       lang/lang_analysis.py  GIRParser.parse: extern mock code?  (live: the scan's `is_extern` flag)
+  `mockUnit0`      pinned commit: substring test on the unit path, which embeds the workspace location (frozen)
 * `bundleExport`   util/loader.py       GeneralLoader.convert_active_bundle_to_dataframe  (`sorted(keys)`)
 * `callPathRows`   util/loader.py       CallPathLoader.export             (`enumerate(set)` — NOT sorted)
 * `numberModules`  preparation.py       ModuleSymbolsBuilder.scan_modules_by_scanning_workspace_dir
@@ -247,6 +249,21 @@ def arrayTypes (elementTypes : List String) : List String := dedupFirst elementT
 
 /-- pinned commit: `list(data_type_set)` — the list parameter is the iteration order of that set of strings. -/
 def arrayTypes0 (typeSetIter : List String) : List String := typeSetIter
+
+/-! ### `GIRParser.parse` (lang/lang_analysis.py): is this unit extern mock code? -/
+
+/-- `pat in s` on character lists -/
+def hasInfix (pat : List Char) : List Char → Bool
+  | [] => pat.isEmpty
+  | c :: cs => pat.isPrefixOf (c :: cs) || hasInfix pat cs
+
+/-- live code: `unit_info.is_extern`, the flag the module scan recorded for the units of this workspace's
+externs tree.  The unit path (which embeds the workspace location) is not consulted. -/
+def mockUnit (isExtern : Bool) (_unitPath : String) : Bool := isExtern
+
+/-- pinned commit: `f"{DEFAULT_WORKSPACE}/{EXTERNS_DIR}" in file_path` — a substring test on the unit path.
+`marker` is that string, built by the harness from the live `config` constants. -/
+def mockUnit0 (marker : String) (unitPath : String) : Bool := hasInfix marker.toList unitPath.toList
 
 /-! ### `GeneralLoader.convert_active_bundle_to_dataframe` -/
 
